@@ -100,6 +100,12 @@ func (t *teeReadCloser) Read(b []byte) (int, error) {
 // Close closes the underlying ReadCloser, then the Writer for the TeeReader.
 func (t *teeReadCloser) Close() error {
 	if err := t.r.Close(); err != nil {
+		// The stream did not end cleanly either: do not let the writer's
+		// consumer take what it was given for a complete stream.
+		if cw, ok := t.w.(interface{ CloseWithError(err error) error }); ok {
+			_ = cw.CloseWithError(err)
+			return err
+		}
 		_ = t.w.Close()
 		return err
 	}
